@@ -419,8 +419,6 @@ def _module_state_sites(tree: ast.Module):
     """(function node, node, container, alias) for every in-place modification of a module-level container inside a function,
     directly or through a local name bound to the container itself (``meta = DEFAULTS`` without a copy)."""
     glob = _module_containers(tree)
-    if not glob:
-        return
     for fn in ast.walk(tree):
         if not isinstance(fn, (ast.FunctionDef, ast.AsyncFunctionDef)):
             continue
@@ -461,6 +459,20 @@ def _module_state_sites(tree: ast.Module):
             if isinstance(v, ast.Name) and v.id in direct:
                 return v.id
             return None
+        # parameters whose default is a mutable container literal: the one default object is shared by all calls
+        a = fn.args
+        pos = a.posonlyargs + a.args
+        mdefaults: Dict[str, str] = {}
+        for p_, d_ in list(zip(pos[len(pos) - len(a.defaults):], a.defaults)) + [(p_, d_) for p_, d_ in zip(a.kwonlyargs, a.kw_defaults) if d_ is not None]:
+            if isinstance(d_, (ast.Dict, ast.List, ast.Set)) or (isinstance(d_, ast.Call) and (dotted(d_.func) or "") in _CONTAINER_CALLS):
+                if p_.arg not in blines:
+                    mdefaults[p_.arg] = f"default of parameter '{p_.arg}'"
+        _owner0 = owner
+
+        def owner(e, _o=_owner0) -> Optional[str]:  # noqa: F811
+            if isinstance(e, ast.Name) and e.id in mdefaults:
+                return mdefaults[e.id]
+            return _o(e)
         for n in walk_no_nested(fn):
             hit = None
             if isinstance(n, (ast.Assign, ast.AugAssign)):
@@ -486,6 +498,10 @@ def leaky(x):
     meta["a"] = x
     return meta
 
+def leaky_default(x, seen=[]):
+    seen.append(x)
+    return seen
+
 def fine(x):
     meta = dict(DEFAULTS)
     meta["a"] = x
@@ -498,10 +514,10 @@ def fine(x):
 def module_state(ctx: Ctx, modules: Iterable[str], rule: str = "E1.module-state") -> int:
     """No function modifies a module-level container in place (a call would then depend on the calls made before it)."""
     ctx.rule(rule, "no function of the anchor modules modifies a module-level dict / list / set in place — neither directly nor through a "
-                   "local name bound to the container itself without a copy (``meta = DEFAULTS; meta[k] = v``): results must not depend "
-                   "on which calls were made before; a built-in positive example must be recognised on every run")
+                   "local name bound to the container itself without a copy (``meta = DEFAULTS; meta[k] = v``) — nor a parameter's "
+                   "mutable default object (``def f(x, seen=[])``): results must not depend on which calls were made before; a built-in positive example must be recognised on every run")
     ctl = list(_module_state_sites(ast.parse(_MODULE_STATE_CONTROL)))
-    if [(f.name, c, a) for f, _, c, a in ctl] != [("leaky", "DEFAULTS", "meta")]:
+    if [(f.name, c, a) for f, _, c, a in ctl] != [("leaky", "DEFAULTS", "meta"), ("leaky_default", "default of parameter 'seen'", "seen")]:
         raise AnalysisError(f"{rule}: positive control not recognised as expected: {[(f.name, c, a) for f, _, c, a in ctl]}")
     prog = ctx.prog
     nfun = 0
